@@ -14,7 +14,7 @@ from props.c02 import collect_simple
 from props.c03 import build_request, read_all, sym_bytes, chunked_body
 
 LEVEL = 'model_checking'
-CONVS = ['cl-small+get', 'chunked+get', 'cl-1025+get', 'malformed-second', 'truncated-small-body']
+CONVS = ['cl-small+get', 'chunked+get', 'cl-1025+get', 'cl-1025-unread+get', 'malformed-second', 'truncated-small-body']
 
 
 def make_conv(ctx, name, tier):
@@ -22,7 +22,7 @@ def make_conv(ctx, name, tier):
         data, body, declared, end, headlen = build_request(ctx, 'cl-small', tier)
     elif name == 'chunked+get':
         data, body, declared, end, headlen = build_request(ctx, 'chunked', tier)
-    elif name == 'cl-1025+get':
+    elif name in ('cl-1025+get', 'cl-1025-unread+get'):
         data, body, declared, end, headlen = build_request(ctx, 'cl-1025', tier)
     elif name == 'malformed-second':
         data = K(b'GET /1 HTTP/1.1\r\nHost: h\r\n\r\n') + K(b'GET /2\r\n\r\n')
@@ -31,7 +31,7 @@ def make_conv(ctx, name, tier):
     return data
 
 
-def one_run(S, ctx, data, tag, reads, short):
+def one_run(S, ctx, data, tag, reads, short, read_bodies=True):
     cv = Conv(S, ctx, data, end='eof', short_reads=short)
     out = {'urls': [], 'bodies': [], 'blocked': False, 'panic': None}
     try:
@@ -42,7 +42,7 @@ def one_run(S, ctx, data, tag, reads, short):
             s = cv.summary(rq)
             out['urls'].append(s['url'])
             cell = Cell(rq)
-            got, eofs, err = read_all(cv, ctx, cell, reads)
+            got, eofs, err = read_all(cv, ctx, cell, reads) if read_bodies else ([], 0, None)
             out['bodies'].append((got, eofs, err))
             cv.respond(cell.v)
         cv.settle()
@@ -65,11 +65,12 @@ def run(L, rep, tier, seed):
 
     def h(ctx):
         name = CONVS[ctx.choose(len(CONVS), 'conversation')]
-        reads = [[2, 64], [600, 600]][ctx.choose(2, 'reads')] if name != 'cl-1025+get' else [600, 600]
+        reads = [[2, 64], [600, 600]][ctx.choose(2, 'reads')] if not name.startswith('cl-1025') else [600, 600]
         data = make_conv(ctx, name, tier)
         # reference run: every read returns everything that is available
-        ref = one_run(S, ctx, data, 'ref', reads, False)
-        seg = one_run(S, ctx, data, 'seg', reads, 'choose')
+        rb = name != 'cl-1025-unread+get'
+        ref = one_run(S, ctx, data, 'ref', reads, False, rb)
+        seg = one_run(S, ctx, data, 'seg', reads, 'choose', rb)
         ctx.event('witness', name)
         sc = lambda m: {'kind': 'conversation-two-segmentations', 'conversation': name, 'bytes_hex': model_bytes(m, data).hex() if len(data) < 400 else None,
                         'segments': seg['segs'], 'ref': {'codes': ref['codes'], 'n': len(ref['urls'])}, 'seg': {'codes': seg['codes'], 'n': len(seg['urls'])}}
